@@ -149,6 +149,28 @@ fn case_dt_inner(day: i64, nod: u64, off: i32, acc: &mut Acc) {
     }
 }
 
+/// a text whose year numeral is outside the representable years must be refused by FromStr and
+/// Deserialize - never read as some other year (numerals that wrap a narrower integer back into range)
+fn case_year_numeral(numeral: &str, which: u8, acc: &mut Acc) {
+    use std::str::FromStr;
+    acc.transitions += 1;
+    acc.states += 1;
+    let text = match which {
+        0 | 1 => format!("{}-05-02", numeral),
+        _ => format!("{}-05-02T12:32:01Z", numeral),
+    };
+    let got: Out<bool> = call(|| match which {
+        0 => Date::from_str(&text).is_ok(),
+        1 => serde_json::from_str::<Date>(&serde_json::to_string(&text).unwrap()).is_ok(),
+        2 => DateTime::from_str(&text).is_ok(),
+        _ => serde_json::from_str::<DateTime>(&serde_json::to_string(&text).unwrap()).is_ok(),
+    });
+    match got {
+        Out::Val(false) => acc.branch("out-of-range-year-refused"),
+        other => acc.violation(["Date::from_str", "Date deserialize", "DateTime::from_str", "DateTime deserialize"][which as usize], "out-of-range-year-numeral-accepted-or-panic", json!({"kind": "year_numeral", "numeral": numeral, "which": which}), "Err".into(), other.show()),
+    }
+}
+
 /// malformed side: a JSON document must give a serde error, never a panic; Ok only for valid values
 fn case_malformed(ty: u8, doc: &str, acc: &mut Acc) {
     acc.transitions += 1;
@@ -178,7 +200,7 @@ pub fn run(ctx: &Ctx) -> i32 {
     let mut rep = Report::new(ctx);
     rep.rule = "states = distinct values / JSON documents; transitions = to_string, from_str, serde_json::to_string, serde_json::from_str calls; Display equals the reference rendering of yyyy/MM/dd, HH:mm:ss, yyyy/MM/dd HH:mm:ss in the value's offset; de(ser(v)) gives the same Date, a Time showing the same HH:mm:ss, the same DateTime instant to the second and offset; malformed documents give a serde error; non-trivial = BC / 5+-digit years, values with offsets, rejected documents".into();
     rep.assumptions = vec!["serde is exercised through serde_json (string (de)serializer); DateTime serde / FromStr is judged for local years 0001..=9999 and whole-minute offsets as the statement says".into()];
-    rep.require(&["date-bc", "date-ad", "time", "datetime-serde", "datetime-display", "malformed-rejected"]);
+    rep.require(&["date-bc", "date-ad", "time", "datetime-serde", "datetime-display", "malformed-rejected", "out-of-range-year-refused"]);
     let checked = PROFILE == "checked";
     if ctx.thorough && checked {
         rep.sweep("Date: all 2^32 days", 1 << 32, "Display, FromStr, serde round trip", |i, acc| case_date(cal::MIN_DAY + i as i64, acc));
@@ -228,6 +250,22 @@ pub fn run(ctx: &Ctx) -> i32 {
         let (d, n) = inst[(i / nob) as usize];
         case_dt(d, n, ob[(i % nob) as usize], acc);
     });
+    // year numerals outside the range, among them those that come back into range when squeezed through 32 or 64 bits
+    let mut numerals: Vec<String> = vec![];
+    for y in [1i128, 4, 2022, 2024, 9999, -1, -44, 5_879_611, -5_879_611] {
+        for k in [1i128, 2, 3, -1, -2] {
+            numerals.push((y + k * (1i128 << 32)).to_string());
+            numerals.push((y + k * (1i128 << 64)).to_string());
+        }
+        numerals.push((y + (1i128 << 31)).to_string());
+        numerals.push((y + (1i128 << 63)).to_string());
+        numerals.push((y + (1i128 << 16) * 100_000).to_string());
+    }
+    for n in ["5879612", "-5879612", "2147483647", "2147483648", "-2147483648", "-2147483649", "4294967295", "4294967296", "9223372036854775807", "9223372036854775808", "-9223372036854775808", "18446744073709551615", "18446744073709551616", "99999999999999999999", "340282366920938463463374607431768211456"] {
+        numerals.push(n.to_string());
+    }
+    let nn = numerals.len() as u64;
+    rep.sweep("year numerals outside the range x {Date::from_str, Date deserialize, DateTime::from_str, DateTime deserialize}", nn * 4, "valid years shifted by multiples of 2^32 and 2^64, by 2^31 and 2^63, and the integer limits", |i, acc| case_year_numeral(&numerals[(i / 4) as usize], (i % 4) as u8, acc));
     // malformed documents
     let ns = count_strings(16, 4);
     rep.sweep("malformed: every string of length <= 4 over TEXT_SIGMA as a JSON string x 3 types", ns * 3, "", |i, acc| {
@@ -276,6 +314,7 @@ pub fn replay(_op: &str, case: &Value, acc: &mut Acc) -> bool {
         Some("date") => case_date(case["day"].as_i64().unwrap(), acc),
         Some("time") => case_time(case["nanos"].as_str().unwrap().parse().unwrap(), case["off"].as_i64().unwrap() as i32, acc),
         Some("dt") => case_dt(case["day"].as_i64().unwrap(), case["nod"].as_str().unwrap().parse().unwrap(), case["off"].as_i64().unwrap() as i32, acc),
+        Some("year_numeral") => case_year_numeral(case["numeral"].as_str().unwrap(), case["which"].as_u64().unwrap() as u8, acc),
         Some("malformed") => case_malformed(case["ty"].as_u64().unwrap() as u8, case["doc"].as_str().unwrap(), acc),
         _ => return false,
     }
